@@ -250,7 +250,7 @@ func calleeName(c *ssa.CallCommon) string {
 }
 
 func typeNameFull(t types.Type) string {
-	return types.TypeString(t, nil)
+	return types.TypeString(types.Unalias(t), nil)
 }
 
 func (u *Unit) fnShort(fn *ssa.Function) string {
